@@ -161,6 +161,10 @@ def remove_cand(
         if condense:
             clean_profile = clean_profile.condense_ballots()
 
+        # the ballot lost all of its candidates: return the exhausted (zero weight) ballot
+        if len(clean_profile.ballots) == 0:
+            return cast(COB, scrubbed_ballots[0])
+
         return cast(COB, clean_profile.ballots[0])
     else:
         clean_profile = None
